@@ -435,6 +435,8 @@ def monitors_comm(s, drv, rep):
             which = "C03" if (eff_lim is not None and kind == "ok") else ("C04" if kind == "timedout" else "C02")
             fails[which].append("read#%d: stdin was closed with %d of %d input bytes still undelivered (a read cut short must leave the rest to later reads)" % (
                 i + 1, len(inp) - int(rd["written"]), len(inp)))
+        if int(rd.get("starved", 0)) > 0:
+            fails["C02"].append("read#%d: %s time(s) poll() reported stdin writable with input pending and the library polled again or returned without writing to it (input and its end-of-file withheld while output is being produced)" % (i + 1, rd["starved"]))
         t0, t1, dl = int(rd["t0"]), int(rd["t1"]), int(rd["deadline"])
         if kind == "timedout":
             if eff_tl is None:
@@ -452,7 +454,13 @@ def monitors_comm(s, drv, rep):
             if s["piped"][2] and not (rd["perr_wr"] == "false" and rd["perr_buf"] == "0"):
                 fails["C02"].append("read#%d: unlimited read returned Ok before stderr reached end-of-file (truncated)" % (i + 1))
     if not inp.startswith(got):
-        fails["C02"].append("the child received bytes that are not a prefix of the supplied input (duplicated or reordered)")
+        msg = "the child received bytes that are not a prefix of the supplied input (duplicated or reordered)"
+        fails["C02"].append(msg)
+        # an exchange resumed after a timeout / a size-limited read must continue exactly where it stopped
+        if any(r_["kind"] == "timedout" for r_ in reads[:-1]):
+            fails["C04"].append(msg + " after a read that timed out was resumed")
+        if any((sp[1] != "-") for sp in s["reads"][:len(reads)]):
+            fails["C03"].append(msg + " in an exchange of size-limited reads")
     last_ok_unlimited = bool(reads) and reads[-1]["kind"] == "ok" and eff_lim is None
     if s["piped"][0] and last_ok_unlimited:
         if world.get("pin_wr") != "false":
